@@ -12,6 +12,7 @@ var registry = map[string]checkFn{
 	"C22": checkC22,
 	"C28": checkC28,
 	"C32": checkC32,
+	"C34": checkC34,
 }
 
 func main() {
